@@ -13,7 +13,7 @@ namespace {
 
 struct Op
 {
-  int kind;        // 0 = write, 1 = translate
+  int kind;        // 0 = write, 1 = translate, 2 = setValue (fill every cell), 3 = translate with the default empty value T()
   int a[3];        // write: logical index; translate: offset
   int64_t value;   // write: tag; translate: empty value
 };
@@ -77,7 +77,9 @@ Outcome runGrid(const Plan & p, Ctx & c)
       for (int z = 0; z < m.n[2]; ++z) {
         for (int y = 0; y < m.n[1]; ++y) {
           for (int x = 0; x < m.n[0]; ++x) {
-            int64_t got = grid(idx(x, y, z));
+            // alternate between the const and the non-const accessor
+            const Grid & cgrid = grid;
+            int64_t got = ((x + y + z + (int)opNo) & 1) ? cgrid(idx(x, y, z)) : grid(idx(x, y, z));
             c.log((uint64_t)got);
             int64_t want = m.at(x, y, z);
             if (want != kPristine && got != want) {
@@ -120,6 +122,12 @@ Outcome runGrid(const Plan & p, Ctx & c)
       if (translations) {SIM_PROBE("write_after_translate");}
       if (c.record) {c.note(fmt("#%zu write (%d,%d,%d) := %lld", k + 1, x, y, z, (long long)op.value));}
       Outcome o = observe("write", k + 1); if (!o.ok) {return o;}
+    } else if (op.kind == 2) {
+      grid.setValue(op.value); std::fill(m.cell.begin(), m.cell.end(), op.value);
+      SIM_COUNT("op.setValue");
+      if (translations) {SIM_PROBE("set_value_after_translate");}
+      if (c.record) {c.note(fmt("#%zu setValue(%lld)", k + 1, (long long)op.value));}
+      Outcome o = observe("setValue", k + 1); if (!o.ok) {return o;}
     } else {
       CO d;
       bool big = false, neg = false, any = false;
@@ -135,8 +143,9 @@ Outcome runGrid(const Plan & p, Ctx & c)
       if (neg && wrapped) {SIM_PROBE("negative_offset_after_previous_wrap");}
       if (DIM == 3 && op.a[2] < 0 && -op.a[2] < m.n[2]) {SIM_PROBE("negative_z_with_survivors");}
       if (!any) {SIM_PROBE("zero_translation");}
-      grid.translate(d, op.value);
-      m.translate(op.a, op.value);
+      if (op.kind == 3) {grid.translate(d); m.translate(op.a, 0); SIM_PROBE("translate_with_default_empty_value");} else {
+        grid.translate(d, op.value); m.translate(op.a, op.value);
+      }
       if (any) {++translations;}
       for (size_t a = 0; a < DIM; ++a) {if (m.off[a]) {wrapped = true;}}
       if (c.record) {
@@ -272,8 +281,10 @@ struct PropC15
         op.kind = 0;
         for (int a = 0; a < p.dim; ++a) {op.a[a] = (int)r.below((uint64_t)p.n[a]);}
         op.value = tag++;
+      } else if (r.chance(0.03)) {
+        op.kind = 2; op.value = tag++;
       } else if (nTrans < 50) {
-        op.kind = 1; ++nTrans;
+        op.kind = r.chance(0.1) ? 3 : 1; ++nTrans;
         for (int a = 0; a < p.dim; ++a) {
           int n = p.n[a];
           int style = offsetStyle == 3 ? (int)r.below(3) : offsetStyle;
@@ -336,7 +347,9 @@ struct PropC15
     for (auto & o : p.ops) {
       Json e = Json::object();
       Json a = Json::array(); for (int k = 0; k < p.dim; ++k) {a.push(o.a[k]);}
-      if (o.kind == 0) {e.set("op", "write").set("index", a).set("value", (long long)o.value);} else {
+      if (o.kind == 0) {e.set("op", "write").set("index", a).set("value", (long long)o.value);} else if (o.kind == 2) {
+        e.set("op", "setValue").set("value", (long long)o.value);
+      } else if (o.kind == 3) {e.set("op", "translate_default_empty").set("offset", a);} else {
         e.set("op", "translate").set("offset", a).set("empty", (long long)o.value);
       }
       ops.push(e);
@@ -354,8 +367,8 @@ struct PropC15
       if (e["op"].s() == "write") {
         o.kind = 0; o.value = e["value"].i();
         for (int a = 0; a < p.dim; ++a) {o.a[a] = (int)e["index"][a].i();}
-      } else {
-        o.kind = 1; o.value = e["empty"].i();
+      } else if (e["op"].s() == "setValue") {o.kind = 2; o.value = e["value"].i();} else {
+        o.kind = e["op"].s() == "translate_default_empty" ? 3 : 1; o.value = o.kind == 1 ? e["empty"].i() : 0;
         for (int a = 0; a < p.dim; ++a) {o.a[a] = (int)e["offset"][a].i();}
       }
       p.ops.push_back(o);
@@ -374,7 +387,7 @@ struct PropC15
       if (p.n[a] > 1) {Plan q = p; q.n[a] = p.n[a] - 1; out.push_back(q);}
     }
     for (size_t k = 0; k < p.ops.size(); ++k) {
-      if (p.ops[k].kind != 1) {continue;}
+      if (p.ops[k].kind != 1 && p.ops[k].kind != 3) {continue;}
       for (int a = 0; a < p.dim; ++a) {
         int v = p.ops[k].a[a];
         if (v == 0) {continue;}
@@ -399,14 +412,14 @@ struct PropC15
   }
   bool nontrivial(const Plan & p) const
   {
-    for (auto & o : p.ops) {if (o.kind == 1 && (o.a[0] || o.a[1] || o.a[2])) {return true;}}
+    for (auto & o : p.ops) {if ((o.kind == 1 || o.kind == 3) && (o.a[0] || o.a[1] || o.a[2])) {return true;}}
     return false;
   }
   std::string signature(const Plan & p, const Outcome & o) const
   {
     std::string s = o.cls + "|" + std::to_string(p.dim) + "D|";
     for (auto & op : p.ops) {
-      if (op.kind == 0) {s += "W";} else {
+      if (op.kind == 0) {s += "W";} else if (op.kind == 2) {s += "F";} else {
         s += "T(";
         for (int a = 0; a < p.dim; ++a) {s += (op.a[a] > 0 ? "+" : (op.a[a] < 0 ? "-" : "0"));}
         s += ")";
@@ -425,7 +438,7 @@ struct PropC15
   std::vector<std::string> probeNames() const
   {
     return {"write_after_translate", "second_or_later_translation", "translate_by_at_least_grid_size",
-      "negative_offset_after_previous_wrap", "negative_z_with_survivors", "zero_translation"};
+      "negative_offset_after_previous_wrap", "negative_z_with_survivors", "zero_translation", "set_value_after_translate", "translate_with_default_empty_value"};
   }
   Json describe() const
   {
